@@ -33,11 +33,23 @@ Definition onetimeauth_chunks (key : bytes) (chunks : list bytes) : bytes :=
 Definition onetimeauth_verify (mac msg key : bytes) : outcome unit :=
   if bytes_eqb mac (onetimeauth key msg) then Ok tt else Err.
 
-(* HMAC over the external SHA-512: init absorbs key^ipad, updates absorb the
-   message pieces, final hashes key^opad || inner.  The hasher is modelled by
-   its specification applied to the concatenation (validated by correspondence). *)
-Definition auth (key msg : bytes) : bytes := Sha512Spec.hmac_sha512_256 key msg.
-Definition auth_chunks (key : bytes) (chunks : list bytes) : bytes := auth key (concat chunks).
+(* crypto_auth (HMAC-SHA-512-256) as src/classic/crypto_auth.rs builds it over the external SHA-512 hasher: the two
+   contexts are modelled by the bytes they have absorbed (the hasher's finalize = its specification of the absorbed bytes;
+   that update is "append" is validated by correspondence, see Refine/Hashes.v: external_hasher).
+   fn init: pad = [0x36; 128]; pad[i] ^= key[i]; ictx.update(pad); pad.fill(0x5c); pad[i] ^= key[i]; octx.update(pad)
+   (a key longer than 128 bytes is hashed first -- not reachable through the public API, whose key is [u8; 32]). *)
+Record hmac_state := mk_hmac { ictx : bytes; octx : bytes }.
+Definition pad_with (fill : Z) (key : bytes) : bytes :=
+  map (fun p : Z * Z => Z.lxor (fst p) (snd p)) (combine (repeat fill (length key)) key) ++ repeat fill (128 - length key).
+Definition auth_init (key : bytes) : hmac_state :=
+  let key := if (128 <? length key)%nat then Sha512Spec.sha512 key else key in
+  mk_hmac (pad_with 0x36 key) (pad_with 0x5c key).
+Definition auth_update (st : hmac_state) (input : bytes) : hmac_state := mk_hmac (ictx st ++ input) (octx st).
+Definition auth_final (st : hmac_state) : bytes :=
+  let ihash := Sha512Spec.sha512 (ictx st) in
+  firstn 32 (Sha512Spec.sha512 (octx st ++ ihash)).
+Definition auth (key msg : bytes) : bytes := auth_final (auth_update (auth_init key) msg).
+Definition auth_chunks (key : bytes) (chunks : list bytes) : bytes := auth_final (fold_left auth_update chunks (auth_init key)).
 Definition auth_verify (mac msg key : bytes) : outcome unit :=
   if bytes_eqb mac (auth key msg) then Ok tt else Err.
 
